@@ -1216,6 +1216,8 @@ func (e *Exec) stepOne(op *Op) (qr queryResult) {
 
 	case "AfterClose":
 		e.stepAfterClose(op)
+	case "DocAPI":
+		e.stepDocAPI(op)
 
 	default:
 		panic("exec: unknown op kind " + op.K)
